@@ -213,8 +213,14 @@ def duration_writer(prog: Program, rep: Report, rule="R04.2", only_coverage=Fals
                     frac_ok = True
                 elif spec is not None and spec[0] == "fstr" and len(spec[1]) == 1 and spec[1][0][0] == "const" and spec[1][0][1] in ("06d", "0>6", "0>6d"):
                     frac_ok = True
+        # the formatted seconds text may lose trailing zeros, nothing else
+        for s in T.walk(sec[0]):
+            if s[0] == "call" and s[1][0] == "attr" and s[1][2] in ("strip", "lstrip", "replace", "removeprefix", "zfill", "ljust", "format") and T.contains(s[1][1], lambda y: y == ("attr", dur, "microseconds")):
+                frac_ok = False
+            if s[0] == "binop" and s[1] in ("+", "/", "*") and T.contains(s, lambda y: y == ("attr", dur, "microseconds")) and not T.contains(s, lambda y: y[0] == "fstr"):
+                frac_ok = False  # float arithmetic instead of digits: 1e-06
         uses_micro = any(s == ("attr", dur, "microseconds") for s in T.walk(sec[0]))
-        rep.check(frac_ok or not uses_micro, "R04.2", q, f.loc, "fractional seconds are zero-padded to 6 digits", "microseconds are not rendered as a zero-padded 6-digit fraction (1 µs would read as 0.1 s)", detail="fraction")
+        rep.check(frac_ok or not uses_micro, "R04.2", q, f.loc, "fractional seconds are zero-padded to 6 digits", "microseconds are not rendered as a zero-padded 6-digit fraction after the whole seconds (1 µs would read as 0.1 s, 'PT.5S' or 'PT1e-06S' are not ISO-8601)", detail="fraction")
         rep.check(uses_micro, "R04.2", q, f.loc, "microseconds are written", "microseconds are never written", detail="micro-written")
     # inputs of pendulum.duration
     for pth in P.paths_of(prog, f):
@@ -442,7 +448,53 @@ def r04_9(prog: Program, rep: Report):
         rep.check(ok, "R04.9", g.qualname, g.loc, "the date arm is reached only after datetime was excluded (datetime is a date)" if seen else "no explicit date arm (falls through after datetime/time)", "the date test precedes the datetime test: a datetime target is truncated to a date", detail="narrow-first")
 
 
+def r04_10(prog: Program, rep: Report, rule="R04.10"):
+    """No memoised serdes function renders a value whose equality is coarser than its text (same instant at two offsets,
+    Decimal('1.10') vs Decimal('1.1'), a month vs 30 days) — shared with R12.3; and decode() turns a memoryview into the
+    bytes of the view itself."""
+    from ..report import Report as _R
+    from . import c12
+
+    sub = _R("C04", rep.tier)
+    sub.rule("R12.3", "", 0)
+    c12.r12_3(prog, sub)
+    n = 0
+    for o in sub.obligations:
+        if "@typelib.serdes." not in o.key and "@typelib.marshals.routines." not in o.key and "@typelib.unmarshals.routines." not in o.key:
+            continue
+        o.key = o.key.replace("R12.3@", rule + "@")
+        o.rule = rule
+        rep.obligations.append(o)
+        rep.rules[rule]["instances"] += 1
+        n += 1
+    memo = prog.memoised_functions()
+    serdes_memo = sorted(q for q in memo if q.startswith(C.SERDES + "."))
+    rep.held(rule, C.SERDES, "", f"memoised serdes functions examined: {[q.rsplit('.', 1)[-1] for q in serdes_memo]}", detail="scan")
+    # memoryview -> bytes of the view
+    f = prog.function(f"{C.SERDES}.decode")
+    v = ("param", f.params[0])
+    ok = bad = False
+    for p in P.paths_of(prog, f):
+        for tm in p.all_terms():
+            for s0 in T.walk(tm):
+                if s0[0] == "ifexp" and T.is_call_to(s0[1], "builtins.isinstance") and s0[1][2] == (v, ("ref", "builtins.memoryview")):
+                    conv = s0[2]
+                    if conv == ("call", ("attr", v, "tobytes"), (), ()) or (T.is_call_to(conv, "builtins.bytes") and conv[2] == (v,)):
+                        ok = True
+                    else:
+                        bad = True
+        for g, pol in p.guards():
+            if pol and T.is_call_to(g, "builtins.isinstance") and g[2] == (v, ("ref", "builtins.memoryview")):
+                for e in p.events:
+                    if e[0] == "assign" and T.contains(e[2], lambda y: y == ("attr", v, "obj")):
+                        bad = True
+                    if e[0] == "assign" and (e[2] == ("call", ("attr", v, "tobytes"), (), ()) or (T.is_call_to(e[2], "builtins.bytes") and e[2][2] == (v,))):
+                        ok = True
+    rep.check(ok and not bad, rule, f.qualname, f.loc, "a memoryview is decoded from the bytes of the view itself (tobytes())", "a memoryview is not converted with tobytes()/bytes(view): `.obj` is the whole exporting buffer, so a sliced view decodes bytes outside its window", detail="memoryview")
+
+
 def run(prog: Program, rep: Report, tier: str):
+    rep.rule("R04.10", "no memoised renderer of coarse-equality values in serdes; memoryview decoded from its own bytes", floor=2)
     rep.rule("R04.9", "unixtime and parser-normalisation contracts", floor=3)
     rep.rule("R04.8", "numbers for date/datetime/time go through fromtimestamp(x, UTC) unaltered", floor=3)
     rep.rule("R04.6", "canonical text reaches the target constructor before the lossy loader", floor=3)
@@ -461,6 +513,7 @@ def run(prog: Program, rep: Report, tier: str):
     r04_6(prog, rep, pe, urows)
     r04_8(prog, rep, pe, urows)
     r04_9(prog, rep)
+    r04_10(prog, rep)
     # exact-class reconstruction keeps every field, offset and fold included (shared with R01.3)
     from ..report import Report as _R, absorb
     from . import c01
